@@ -3,7 +3,8 @@
 The block iterator's answers are the environment: for every buffer over {a,b} up to a length bound, every composition into
 <= 4 blocks and EVERY subset of iterator calls answering 'not ready' (1 or 2 times each) the scan call is repeated until it
 completes; every intermediate call must return ERROR_BLOCK_NOT_READY without delivering a message and the final observation
-must equal the uninterrupted scan of the same partition."""
+must equal the uninterrupted scan of the same partition; a partition that cuts none of the occurrences found in the whole buffer must
+give exactly the whole buffer's result (rules with at / in / #..in / @ / ! / of..in operands in absolute offsets)."""
 import itertools, json, os, sys
 sys.path.insert(0, os.path.join(os.path.dirname(os.path.abspath(__file__)), "..", "lib"))
 import yv
@@ -19,6 +20,11 @@ rule u8 { condition: uint8(1) == 0x62 }
 rule re { strings: $r = /a+b/ condition: $r }
 rule hexj { strings: $h = { 61 [1-2] 62 } condition: $h }
 rule two { strings: $x = "aa" $y = "ba" condition: $x and $y }
+rule in12 { strings: $s = "ab" condition: $s in (1..2) }
+rule cin { strings: $s = "ab" condition: #s in (1..3) == 1 }
+rule off2 { strings: $s = "ab" condition: @s[2] == 3 or !s[1] != 2 }
+rule ofin { strings: $x = "aa" $y = "bb" condition: any of them in (2..3) }
+rule at3 { strings: $s = "ba" condition: $s at 3 }
 """
 EP_RULES = """
 import "tests"
@@ -65,6 +71,14 @@ def run_chunk(arg):
             ref = w.cmd(base)
             if len(parts) <= 1 and obs(ref) != obs(whole):
                 out["viol"].append(("C13:single-block-iterator-differs-from-mem", dict(buffer=buf.decode(), blocks=parts, mem=whole, iterator=ref)))
+            if len(parts) > 1:
+                # a partition that cuts none of the occurrences found in the whole buffer must give the whole buffer's result
+                cuts = set(itertools.accumulate(parts[:-1]))
+                occ = [(x[0], x[1]) for m in whole["t"] if m[0] in ("m", "n") for sid in m[2] for x in sid[1]]
+                if not any(o < c < o + l for (o, l) in occ for c in cuts) and obs(ref) != obs(whole):
+                    diff = sorted(set(m[1] for m in whole["t"] if m[0] == "m") ^ set(m[1] for m in ref["t"] if m[0] == "m")) or ["match-lists"]
+                    out["viol"].append(("C13:multi-block-iterator-differs-from-mem:%s" % diff[0].split(":")[-1], dict(buffer=buf.decode(), blocks=parts, mem=whole, iterator=ref)))
+                out["evals"] += 1
             ncalls = (len(parts) if parts else 1) + 1
             cmds, scripts = [], []
             for r in (1, 2):
